@@ -23,4 +23,5 @@ def run(prog, rep, tier):
     apply(rep, "X3", "location-list elements, their operations and the words on them (source evaluation against an abstract libdw)", r_dw.x3(prog, tier), 9)
     apply(rep, "X4", "abbreviation tables and the words on abbreviations (source evaluation against an abstract libdw)", r_dw.x4(prog), 10)
     apply(rep, "X5", "`value` of an operation yields its operands in stored order (value_producer_cat interpreted)", r_dw.x5(prog), 1)
+    apply(rep, "X6", "address-keyed libdw lookups of a location operation get the pointer libdw handed out, not the address of a copy", r_dw.x6(prog), 3)
     maybe_mutants("C17", rep, tier)
